@@ -775,6 +775,44 @@ def run_scenario(rep, label, sc, lines, expect, meta):
     return run
 
 
+def refusal_one(args):
+    """a real open() against a broker that refuses with Connection.Close(code), under the virtual runtime with
+    line-level pre-emption: the opener may look between any two effects of the reader's handler"""
+    at, code, seed = args
+    import amqpstorm
+    from harness import refbroker, vrt
+    policy = refbroker.Policy()
+    policy.refuse_at = at
+    policy.refuse_code = code
+    out = {}
+
+    def scenario(ctx):
+        try:
+            amqpstorm.Connection('localhost', 'guest', 'guest', heartbeat=0, timeout=5)
+            out['res'] = ('opened', None)
+        except amqpstorm.AMQPConnectionError as why:
+            out['res'] = ('connection-error', why.error_code)
+        except BaseException as why:   # noqa
+            out['res'] = ('other', type(why).__name__)
+    ctx = vrt.run_scenario(scenario, refbroker.factory(policy), seed=seed, p_preempt=0.35, fair_time=(seed % 2 == 1),
+                           repo_path=str(common.REPO))
+    out['abort'] = ctx.sched.abort_reason
+    return out
+
+
+def check_refusal_schedules(rep, rng, thorough):
+    from harness import par
+    jobs = [(rng.choice(['start-ok', 'tune-ok', 'open']), rng.choice([403, 530, 402, 541]), rng.randrange(1 << 30))
+            for _ in range(120 if not thorough else 3000)]
+    for (at, code, seed), r in zip(jobs, par.pmap(refusal_one, jobs)):
+        rep.case(('refusal-schedule', at, code, seed), True)
+        rep.count('kind', 'refusal-schedule')
+        replay = {'refusal_schedule': {'at': at, 'code': code, 'seed': seed}}
+        if r.get('res') != ('connection-error', code):
+            sig = 'C09/refusal-code-lost' if r.get('res', ('',))[0] == 'connection-error' else 'C09/refusal-outcome'
+            rep.violation(sig, 'the broker refused after %s with code %d; open() gave %r' % (at, code, r.get('res')), replay)
+
+
 def check(rep):
     rng = random.Random(common.seed() * 1000003 + 9)
     thorough = rep.tier == 'thorough'
@@ -805,6 +843,7 @@ def check(rep):
         run_scenario(rep, label, sc, lines, expect, meta)
     check_tune_direct(rep, rng, thorough, lines, expect, meta)
     check_mech_direct(rep, rng, thorough, lines, expect, meta)
+    check_refusal_schedules(rep, rng, thorough)
     rep.exhaustive = False
     if rep.build.driver_ok:
         got = common.run_driver(lines)
@@ -818,6 +857,13 @@ def check(rep):
 
 def replay(data):
     r = data['replay']
+    if 'refusal_schedule' in r:
+        d = r['refusal_schedule']
+        out = refusal_one((d['at'], d['code'], d['seed']))
+        print(out)
+        bad = out.get('res') != ('connection-error', d['code'])
+        print('VIOLATION reproduced' if bad else 'property holds on this input')
+        return 1 if bad else 0
     if 'direct_tune' in r:
         d = r['direct_tune']
         rc = RecConn({'user': 'u', 'password': 'p', 'vhost': '/', 'heartbeat': d['heartbeat']})
